@@ -205,7 +205,8 @@ def ctor_table():
         ('FileContains', [lambda: M.FileContains('hello\n'), lambda: M.FileContains(''), lambda: M.FileContains('caf\xe9'), lambda: M.FileContains(b'abc'),
                           lambda: M.FileContains(matcher=M.Equals(('a',))), lambda: M.FileContains(matcher=M.Never())]),
         ('HasPermissions', [lambda: M.HasPermissions('0644'), lambda: M.HasPermissions('4755'), lambda: M.HasPermissions('1777'), lambda: M.HasPermissions(b'0644')]),
-        ('SamePath', [lambda: M.SamePath(P(2)), lambda: M.SamePath(P(4)), lambda: M.SamePath(P(2).encode()), lambda: M.SamePath('caf\xe9')]),
+        ('SamePath', [lambda: M.SamePath(P(2)), lambda: M.SamePath(P(4)), lambda: M.SamePath(P(2).encode()), lambda: M.SamePath('caf\xe9')] +
+         [lambda i=i: M.SamePath(C6.Scratch.get().wide_paths()[i]) for i in (0, 1, 2, 30, 19, 18)]),
         ('TarballContains', [lambda x=x: M.TarballContains(x) for x in (['other', 'file'], ('other', 'file'), (), ('file',), {'file'}, frozenset(['file', 'other']))]),
         ('Warnings', [lambda: M.Warnings(), lambda: M.Warnings(M.HasLength(2)), lambda: M.Warnings(M.Never())]),
         ('WarningMessage', [lambda: M.Warnings(M.AllMatch(M.WarningMessage(UserWarning))),
@@ -243,6 +244,8 @@ def ctor_matchees():
           ('bool', lambda: False), ('bool', lambda: True), ('zero', lambda: 0), ('bytes', lambda: b''), ('obj', lambda: AnyEq()), ('obj', lambda: NeverEq()),
           ('obj', lambda: ArrayLike([1, 2])), ('list', lambda: [AnyEq(), 0, '', None, False]), ('tuple', lambda: (0, '', None))]
     V += [('list', lambda: [1, 1]), ('list', lambda: [1, 1, 1]), ('bytes', lambda: b'a'), ('float', lambda: 1.5), ('obj', lambda: Color.RED)]
+    # round f: the wider path vocabulary (symlinked directories and `..`, relative spellings, loops ...)
+    V += [('path', lambda i=i: S.wide_paths()[i]) for i in range(34)]
     return V
 
 
